@@ -197,6 +197,8 @@ class Driver:
         if ev == "GetItem":
             return {"ev": ev, "exc": "", "kind": "", "i": 0, "a": 0, "b": 0, "st": 1, "arr": [], "rp": [], "rw": [],
                     "sametype": True, "sameextra": True}
+        if ev == "Reject":
+            return {"ev": ev, "exc": "", "kind": "", "ptsafter": [], "wtsafter": []}
         return {"ev": ev, "exc": "", "pts": [], "wts": []}
 
     def query(self, ci, ri):
@@ -258,6 +260,39 @@ class Driver:
             e["exc"] = type(ex).__name__
         self.events.append(e)
 
+    REJECTS = ["neg-radius", "nan-radius", "bad-center", "bad-points", "bad-weights"]
+
+    def reject(self, ki):
+        kind = self.REJECTS[ki % len(self.REJECTS)]
+        if kind == "bad-points" and not self.case.can_set_points:
+            return
+        if kind in ("neg-radius", "nan-radius", "bad-center") and not self.case.can_query:
+            return
+        e = self._blank("Reject")
+        e["kind"] = kind
+        c = self.centers[0]
+        try:
+            with warnings.catch_warnings():
+                warnings.simplefilter("ignore")
+                if kind == "neg-radius":
+                    self.obj.get_localgrid(c, -1.0)
+                elif kind == "nan-radius":
+                    self.obj.get_localgrid(c, float("nan"))
+                elif kind == "bad-center":
+                    self.obj.get_localgrid(np.zeros(7), 1.0)
+                elif kind == "bad-points":
+                    self.obj.points = np.asarray(self.obj.points)[:-1].copy()
+                else:
+                    self.obj.weights = np.asarray(self.obj.weights)[:-1].copy()
+        except Exception as ex:
+            e["exc"] = type(ex).__name__
+        try:
+            e["ptsafter"] = enc_points(self.obj.points, self.case.dim1)
+            e["wtsafter"] = self.tok.of(self.obj.weights)
+        except Exception as ex:
+            e["exc"] = "state-unreadable:" + type(ex).__name__
+        self.events.append(e)
+
     def run(self, beh):
         for act, a, b in beh:
             if act == "Q":
@@ -272,6 +307,8 @@ class Driver:
             elif act == "GI":
                 if self.case.can_select:
                     self.get_item(a - 1)
+            elif act == "RJ":
+                self.reject(a - 1)
         return self.events
 
 
@@ -283,7 +320,7 @@ def _model_runs(rep, wd):
     rep.tlc(res, "MC_LocalGrid_Correct")
     if res.status == "violation":
         rep.violation("model:design", f"the design model itself violates {res.violated}", tlc.last_state(res))
-    for act in ("Query", "SetPoints", "SetWeights", "GetItem"):
+    for act in ("Query", "SetPoints", "SetWeights", "GetItem", "Reject"):
         if act in res.coverage and res.coverage[act][1] == 0:
             raise tlc.MachineryError(f"vacuity: action {act} never taken in MC_LocalGrid_Correct")
     r2 = tlc.run_tlc("MC_LocalGrid", "MC_LocalGrid_AsShipped.cfg", wd, workers=8).require_ok("AsShipped")
@@ -317,8 +354,10 @@ def _random_beh(rng, length):
             out.append(("Q", rng.randint(1, 4), rng.randint(1, 6)))
         elif x < 0.65:
             out.append(("SP", rng.randint(1, 4), 0))
-        elif x < 0.8:
+        elif x < 0.75:
             out.append(("SW", rng.randint(1, 2), 0))
+        elif x < 0.85:
+            out.append(("RJ", rng.randint(1, 5), 0))
         else:
             out.append(("GI", rng.randint(1, 12), 0))
     return out
@@ -476,7 +515,15 @@ def selftest(tier: str = "quick") -> int:
             return orig(self, center, radius)
         return patched(bg.Grid, "get_localgrid", gl)
 
-    muts = [("stale-tree", stale_tree), ("getitem-int-only", int_only), ("radius-shrunk", open_ball),
+    def set_then_validate():  # the weights setter assigns first and validates afterwards: a rejected call leaves damage
+        def setter(self, value):
+            old = self._weights
+            self._weights = value
+            if value.shape != old.shape:
+                raise ValueError("The shape of the new weights should match the shape of the old weights.")
+        return patched(bg.Grid, "weights", property(bg.Grid.weights.fget, setter))
+
+    muts = [("weights-set-before-validation", set_then_validate), ("stale-tree", stale_tree), ("getitem-int-only", int_only), ("radius-shrunk", open_ball),
             ("weights-by-position", wrong_weights), ("atomgrid-uncentred", uncentred_atom),
             ("onedgrid-drops-domain", drop_domain), ("inf-drops-last-point", inf_views)]
     return run_mutants(PROP, run, muts, tier)
